@@ -126,7 +126,8 @@ pub fn waitpidx(wpid: i32, block: bool) -> types::WaitStatus {
 
 pub fn wait_fg_job(sh: &mut shell::Shell, gid: i32, pids: &[i32]) -> CommandResult {
     let mut cmd_result = CommandResult::new();
-    let mut count_waited = 0;
+    // foreground processes that have exited or are currently stopped
+    let mut pids_waited: Vec<i32> = Vec::new();
     let count_child = pids.len();
     if count_child == 0 {
         return cmd_result;
@@ -150,8 +151,13 @@ pub fn wait_fg_job(sh: &mut shell::Shell, gid: i32, pids: &[i32]) -> CommandResu
 
         let pid = ws.get_pid();
         let is_a_fg_child = pids.contains(&pid);
-        if is_a_fg_child && !ws.is_continued() {
-            count_waited += 1;
+        if is_a_fg_child {
+            // a member that was stopped and is continued is running
+            // again, it has to be waited for once more.
+            pids_waited.retain(|x| *x != pid);
+            if !ws.is_continued() {
+                pids_waited.push(pid);
+            }
         }
 
         if ws.is_exited() {
@@ -172,7 +178,9 @@ pub fn wait_fg_job(sh: &mut shell::Shell, gid: i32, pids: &[i32]) -> CommandResu
                 mark_job_member_stopped(sh, pid, 0, false);
             }
         } else if ws.is_continued() {
-            if !is_a_fg_child {
+            if is_a_fg_child {
+                mark_job_member_continued(sh, pid, gid);
+            } else {
                 signals::insert_cont_map(pid);
             }
             continue;
@@ -189,7 +197,7 @@ pub fn wait_fg_job(sh: &mut shell::Shell, gid: i32, pids: &[i32]) -> CommandResu
             cmd_result.status = status;
         }
 
-        if count_waited >= count_child {
+        if pids_waited.len() >= count_child {
             break;
         }
     }
